@@ -32,6 +32,11 @@ def alphabet(n, names, phases=(math.pi / 2,)):
             A += [(nm, ph, a, b) for ph in phases for a in range(n) for b in range(n) if a != b]
         elif nm == "mcx":
             A += [(nm, tuple(c for c in range(n) if c != t), t) for t in range(n)] if n >= 3 else []
+        elif nm == "mcx1":
+            A += [("mcx", (c,), t) for c in range(n) for t in range(n) if c != t]
+        elif nm == "shared":
+            # ONE X and ONE CX gate object per circuit, applied through append(): the same objects recur in several runs
+            A += [("append_shared", "X", (q,)) for q in range(n)] + [("append_shared", "CX", (a, b)) for a in range(n) for b in range(n) if a != b]
         elif nm == "mcz":
             A += [("mctrl", "Z", tuple(c for c in range(n) if c != t), t) for t in range(n)] if n >= 2 else []
         elif nm == "mctrlx":
@@ -71,6 +76,9 @@ def build(qc, seq, shared=None):
 
 def make(n, seq, shared=None):
     from qlasskit import QCircuit
+    if shared is None and any(l[0] == "append_shared" for l in seq):
+        from qlasskit.qcircuit import gates
+        shared = {"X": gates.X(), "CX": gates.CX()}
     return build(QCircuit(n), seq, shared)
 
 
